@@ -75,6 +75,10 @@ def parked_pairs(ctx, r, big=0):
                 ra = pk.resume(); pk = None
                 if ra.get("tracer_error"):      # strace itself failed: the run says nothing about ergo
                     ctx.count(1, key=("skipped: tracer error",)); continue
+                if ra["exit"] == -9:
+                    # the harness gave up waiting for the resumed process and killed it (a lost SIGCONT / ptrace hiccup on a loaded machine): no verdict.
+                    # (a command that really blocks on the lock is caught above: B runs untraced with a 10 s limit)
+                    ctx.count(1, key=("skipped: resumed process did not finish, killed by the harness",)); continue
                 g = c.graph()
                 bad = lines_valid(c.log_bytes())
                 if bad or "err" in g:
